@@ -196,13 +196,41 @@ def print_assumptions(module, theorems, timeout=300):
     return res, out
 
 
-def forbidden_tokens():
-    """grep the development for anything that would declare an axiom or weaken the kernel"""
+def dependency_closure(targets):
+    """the .v files the given .vo targets depend on (from coq_makefile's .Makefile.d); None if unknown"""
+    depfile = os.path.join(COQ, ".Makefile.d")
+    if not os.path.exists(depfile):
+        return None
+    deps = {}
+    with open(depfile) as f:
+        for line in f:
+            if ":" not in line:
+                continue
+            lhs, rhs = line.split(":", 1)
+            outs = [x for x in lhs.split() if x.endswith(".vo")]
+            ins = [x for x in rhs.split() if x.endswith(".vo")]
+            for o in outs:
+                deps.setdefault(o, set()).update(ins)
+    seen, todo = set(), list(targets)
+    while todo:
+        t = todo.pop()
+        if t in seen:
+            continue
+        seen.add(t)
+        todo += list(deps.get(t, ()))
+    files = sorted(x[:-1] for x in seen if os.path.exists(os.path.join(COQ, x[:-1])))
+    return files or None
+
+
+def forbidden_tokens(targets=None):
+    """grep the development (the dependency closure of `targets`, or everything) for anything that would
+    declare an axiom or weaken the kernel"""
     bad = []
     pat = re.compile(r"\b(Admitted|admit|Axiom|Axioms|Parameter|Parameters|Conjecture|"
                      r"Admit Obligations|Unset Guard Checking|bypass_check|"
                      r"Unset Positivity Checking|Unset Universe Checking|type-in-type)\b")
-    for rel in coq_project_files():
+    files = (dependency_closure(targets) if targets else None) or coq_project_files()
+    for rel in files:
         with open(os.path.join(COQ, rel)) as f:
             txt = re.sub(r"\(\*.*?\*\)", "", f.read(), flags=re.S)
         for i, line in enumerate(txt.splitlines(), 1):
